@@ -1164,3 +1164,66 @@ def encapsulation_case(rng):
         if name in imported:
             forms.append("(%s)" % ext_peek)
     return [(n, t) for n, t, _, _ in libs], forms
+
+
+# ------------------------------------------------------------------------------------------
+# C18: REPL sessions
+# ------------------------------------------------------------------------------------------
+import re as _re
+_TOKEN = _re.compile(r'''"(?:\\.|[^"\\])*"|#\\.|\|[^|]*\||;[^\n]*|[()']|#\(|[^\s()'";|]+''', _re.S)
+
+
+def split_tokens(form):
+    return _TOKEN.findall(form)
+
+
+REPL_SPECIAL = [
+    '(display "a(b")', '(display "))")', '(list #\\( #\\) 1)', "(quote |a(b|)", '(display "q\\"(")', "(display 1) ; )(\n",
+    '(display "semi;colon(")', "(car '())", "(undefined-thing)", "(define (sq x) (* x x))", "(sq 7)", '(display "x y")',
+    "(vector 1 #\\) 2)", "'(a . b)", "(if #f #f)", '(display "\\\\")', "(list \"(\" \")\")", "#\\(", '"plain string"', "'sym",
+    "(define-syntax swap! (syntax-rules () ((swap! a b) (let ((tmp a)) (set! a b) (set! b tmp)))))",
+    "(begin (display 1) (newline) (display 2) 3)", '(display "two\nlines(")', "(list 1 ; comment )\n 2)",
+    "(quote |bar\n(id|)", '(display "a") (display "b")',
+]
+
+
+def repl_session(rng, nforms=6):
+    g = Gen(rng, ticks=False, derived=True)
+    forms, _ = g.program(nforms, 2)
+    out = []
+    for f in forms:
+        out.append(f)
+        if rng.random() < 0.5:
+            out.append(rng.choice(REPL_SPECIAL))
+    return out
+
+
+def render_lines(rng, forms, style):
+    """lay the forms out as input lines, one submission per form: a line break only inside an open list
+    (the REPL submits as soon as every list is closed), never inside a token"""
+    lines = []
+    for f in forms:
+        toks = split_tokens(f)
+        cur = ""
+        depth = 0
+        for j, t in enumerate(toks):
+            brk = {"one-line": 0.0, "some": 0.25, "many": 0.7}[style]
+            if cur and depth > 0 and rng.random() < brk:
+                lines.append(cur)
+                cur = ""
+            sep = ""
+            if cur:
+                prev = cur[-1]
+                glue = prev in "('" or t == ")"
+                sep = "" if glue and rng.random() < 0.7 else " "
+            cur += sep + t
+            if t in ("(", "#("):
+                depth += 1
+            elif t == ")":
+                depth -= 1
+            if t.startswith(";"):
+                lines.append(cur)
+                cur = ""
+        if cur:
+            lines.append(cur)
+    return lines
